@@ -33,7 +33,7 @@ CHECKS = {
  "C17": dict(cat="proof", tech="Lean 4 theorems (deadline arithmetic for all uint32 pairs by induction+omega; EINTR retry loop over an arbitrary oracle; regenerated errno table by decide; abstract counter invariant over all interleavings) and correspondence under scripted kernel results (linker --wrap)",
    text="deadline_exact_normalised for every now and all 2^64 (seconds, nanoseconds) pairs; wait_resumes_after_eintr / wait_never_reports_eintr for every oracle; try_wait/timed_wait status iff theorems over the errno table "
         "regenerated from errno_status.c; sem_conservation and sem_no_lost_wakeup for the abstract counter on every interleaving. Tie: sem_posix.c is run with sem_wait/sem_trywait/sem_timedwait/clock_gettime wrapped; status, "
-        "call count and the abstime received are compared with the model.",
+        "call count and the abstime received are compared with the model; plus a real-thread run (posters, waiters of all three kinds, SIGUSR1 storms, try-wait counts, timeouts never early) against what the abstract counter predicts (support).",
    note="The kernel semaphore, real time and signal delivery are modelled, not verified: the schedule clauses are theorems about an abstract counter composed with the documented behaviour of sem_*.", ref="§5 C17"),
  "C13": dict(cat="proof", tech="Lean 4 theorems on a BitVec model with constants and multiplier inverses regenerated from digest.c (injectivity via explicit inverses; length law by truncation to 5 bits + decide) and correspondence against implementation and reference hashes",
    text="Proved for all seeds and byte strings: aligned = general (64 and 32 bit), seed_injective, block_injective (one word-sized block, rest fixed), length_zero_extension32 (full), "
@@ -45,11 +45,11 @@ CHECKS = {
    text="Proved for every table and every hash/key function: hash_probe_terminates / hash_plan_terminates (fuel = table size always suffices); with the invariant Inv (distinct keys, codes consistent, every live record reachable from its home slot without "
         "crossing an empty slot, power-of-two size): find_some_iff / find_none_iff, insert_exists, insert_new (SUCCESS or NO_MEM with the table untouched), remove_absent, remove_present (also when shrinking fails), size_and_iteration, and find/insert callbacks only on stored "
         "records, their keys and the probe key in the documented order. Side conditions on the regenerated constants by decide. Tie: per-call comparison of status, record, size, whole slot array and callback log under 5 hash families x 3 record layouts, churn generators, CPU watchdog.",
-   note="User equality is key identity; equal keys have equal codes (API contract). The per-operation theorems are not yet folded into one history-level refinement statement.", ref="§5 C03"),
+   note="User equality is key identity; equal keys have equal codes (API contract). History level (Properties/C03History.lean): hash_refines_map — for every key accessor, hash function, allocation-failure pattern and every history from zix_hash_new each output is one the abstract map allows; reachable_inv (size = number iterated, no record twice); reachable_find.", ref="§5 C03"),
  "C06": dict(cat="proof", tech="Lean 4 theorems (AVL invariant with the C code's stored balance factors and rotation formulas, refinement to a sorted (multi)list with node identity, Fibonacci height bound) and white-box correspondence of the whole shape",
    text="Proved: insert_dups / insert_nodups (balanced, sorted, in-order list = positional insertion after equal keys, EXISTS names the existing element, height growth flag exact), remove_spec (balanced, in-order list = old minus exactly that node: other nodes keep identity, key and order), "
-        "avl_height_bound (fib(h+2) <= size+1), find_spec (<= height comparisons; found iff stored), postorder_perm_inorder (free destroys each once), inv_new/inv_insert/inv_remove (invariant over every history). Tie: after every call the whole shape "
-        "(node id, key, balance, parent), size and comparator-call count are compared with the implementation; the harness checks iterator stability, destroy-once, callback user data, allocator balance.",
+        "avl_height_bound (fib(h+2) <= size+1), find_spec (<= height comparisons; found iff stored), postorder_perm_inorder (free destroys each once), inv_new/inv_insert/inv_remove; history level (Properties/C06History.lean): tree_refines_spec (every history from zix_tree_new, duplicates on or off, allocation refused or not, yields exactly the outputs and the element list of an abstract sorted (multi)set), spec_sorted_and_size, spec_elements_stable, reachable_find_bound (c comparisons in a reachable tree of n elements: fib(c+2) <= n+1, i.e. c <= 1.44 log2(n+2)). Tie: after every call the whole shape "
+        "(node id, key, balance, parent), size and comparator-call count are compared with the implementation; the harness checks iterator stability, destroy-once, callback user data, allocator balance, and the proved comparison bound on every find (so a lost balance is API-visible).",
    note="Parent-pointer stepping (iter_next/prev) is compared through full forward/backward walks, not modelled as pointer code.", ref="§5 C06"),
  "C01": dict(cat="proof", tech="Lean 4 theorems (sorted-set refinement of insert and remove by induction over the tree, lifted to every operation history under an arbitrary allocation oracle; WF invariant; height bound; comparison count; clear) and white-box correspondence on five builds",
    text="Proved for every valid page geometry (INODE_VALS = LEAF_VALS/2 >= 3), every element and every allocation-failure oracle: insert_refines / insert_success_iff_absent, remove_refines, find_refines, clear_destroys_each_once, and for every history "
@@ -80,11 +80,11 @@ CHECKS = {
         "(short counts, EXDEV/EINVAL/ENOSYS from copy_file_range and a refused block are not failures), copy_excl_exists / copy_excl_never_modifies, copy_refuses_nonregular, copy_onto_itself_refused, copy_closes_all. Tie: status, source intact, destination bytes, "
         "descriptor balance and the system-call trace compared under injected errno / short counts at every call position, for 9 sizes x 8 destination states x both options x 4 kernel-copy modes.",
    note="Abstract POSIX layer (open/fstat/ftruncate/read/write/copy_file_range/fdatasync/close); successful calls leave errno unchanged; block size positive (the code guarantees 4096 otherwise); no concurrent modification; durability not modelled. A close error of the last descriptor is not reported (content is complete).", ref="§5 C14"),
- "C15": dict(cat="proof", tech="Lean 4 theorems (create_directories over an abstract tree via the proved path-iterator model; file_equals page loop; regenerated file-type table by decide) and correspondence on a real scratch tree and against direct system calls",
-   text="Proved: mkdirs_success_iff_dir (SUCCESS exactly when the path names a directory afterwards, every path shape, every well-formed tree), mkdirs_idempotent, mkdirs_only_adds_dirs, mkdirs_empty; file_equals_iff_bytes (all contents, every page size, with or without pages), "
-        "file_equals_symm, file_equals_missing_false; file_type_table, file_type_other_unknown, file_type_ignores_permissions over the regenerated table. Tie: create_directories on every shape over {a,b,.,..,empty} up to 4 (5) components x 7 trees incl. the resulting tree; "
+ "C15": dict(cat="proof", tech="Lean 4 theorems (create_directories for EVERY operating system obeying six stated laws, instantiated by a tree with symbolic links and by the symlink-free tree, via the proved path-iterator model; file_equals page loop; regenerated file-type table by decide) and correspondence on a real scratch tree and against direct system calls",
+   text="Proved: mkdirs_success_iff_dir (SUCCESS exactly when the path names a directory afterwards, every path shape, every well-formed tree), mkdirs_idempotent, mkdirs_only_adds_dirs, mkdirs_empty; the same clauses for createDirectoriesG over any state type and stat/mkdir pair satisfying OsLaws (mkdirsG_success_iff_dir, mkdirsG_idempotent, mkdirsG_dirs_stay, mkdirsG_existing), linkTree_laws (POSIX path resolution with symbolic links — relative/absolute targets, dangling links, loops — satisfies the laws) and link_mkdirs_success_iff_dir / _idempotent / _only_adds_dirs; file_equals_iff_bytes (all contents, every page size, with or without pages), "
+        "file_equals_symm, file_equals_missing_false; file_type_table, file_type_other_unknown, file_type_ignores_permissions over the regenerated table. Tie: create_directories on every shape over {a,b,.,..,empty} up to 4 (5) components x 7 trees and over {k,a,b,..,empty} x 10 trees with symbolic links, incl. the resulting tree; "
         "file_equals at page boundaries, hard links, refused pages; 9 file kinds vs stat/lstat; file_size; canonical_path vs realpath; dir_for_each; descriptor balance.",
-   note="Symlinks, permissions and races are exercised against the real file system only; the mkdirs theorems are about the symlink-free tree. file_size / canonical_path / dir_for_each are judged against direct system calls by the harness, not modelled.", ref="§5 C15"),
+   note="Permissions, mount points and concurrent modification are not modelled (they enter only through OsLaws). file_size / canonical_path / dir_for_each are judged against direct system calls by the harness, not modelled.", ref="§5 C15"),
  "C18": dict(cat="other", tech="Lean 4 theorems about the pthread call sequence and status mapping (composed with an assumed pthread contract) plus observation of interposed pthread calls and real threads",
    text="Proved: create_passes_requested_stack (the attribute handed to pthread_create carries the requested size, for every size), create_runs_once_on_requested_stack (under the platform contract), create_error_reported (SUCCESS iff pthread_create returned 0, regenerated errno table), join_status. "
         "Observed: the interposed call sequence equals the model's; real threads (stacks from PTHREAD_STACK_MIN to 64 MiB, up to 16 at once; thorough 128) report their stack size, touch the requested depth, run once with their argument, and their plain writes are visible after join.",
@@ -97,7 +97,7 @@ CHECKS = {
    text="Proved for every ring size, every well-formed writer call sequence, every reader call sequence and EVERY schedule (every interleaving at every shared access, every stale value an acquire load may return): spsc_race_free (no plain buffer access unordered with the conflicting one), "
         "spsc_deliveries_are_committed (every read/peek delivers exactly the committed bytes at its position), spsc_prefix, spsc_contents (nothing lost; uncommitted bytes never visible), spsc_quiescent_contents, spsc_wait_free (a thread scheduled alone finishes within a bound of its own work). "
         "Tie: for each public function x N <= 16 (64 thorough) x every head pair x every request size, the logged sequence of atomic loads/stores with their memory orders, per-byte buffer accesses and any non-own plain head access equals the program the theorems are about; return value and heads too.",
-   note="The C11 release/acquire fragment is rendered as the machine of Model/RingRA.lean (trusted rendering, argued in DESIGN.md §5-C04); a weakened order cannot be exhibited on x86 hardware, so it is caught as a log mismatch. reset/mlock are not thread-safe by contract and are outside the programs. Two-thread soak run is support only.", ref="§5 C04"),
+   note="The C11 release/acquire fragment is rendered as the machine of Model/RingRA.lean (trusted rendering, argued in DESIGN.md §5-C04); the orders of the nine atomic access sites are regenerated from the instrumented object code on every run (theorem ring_orders_as_proved); when they differ, the vector-clock machine Model/RingRAX.lean is searched with the observed orders for a racy schedule, which becomes the replay (a weakened order cannot be exhibited on x86 hardware). reset/mlock are not thread-safe by contract and are outside the programs. Two-thread soak run is support only.", ref="§5 C04"),
  "C07": dict(cat="proof", tech="Lean 4 theorems over component models with allocation oracles (B-tree: arbitrary Nat -> Bool oracle over every history; hash: refused table allocation on insert and on shrink; AVL: refused node) plus fault-injection correspondence and an every-fault-index sweep of the string/filesystem functions",
    text="Proved: btree_insert_fault_atomic (for an ARBITRARY oracle, NO_MEM leaves contents and size unchanged, was caused by a refused request of this call, and the tree stays well formed), btree_survives_any_faults (invariant after any history under any oracle), btree_new_fault, "
         "C03.insert_new (NO_MEM only if the bigger table was refused; table untouched) and C03.remove_present (removal completes and the invariant holds when shrinking is refused), avl_insert_fault_atomic. Tie: B-tree histories with single and persistent faults and continuations compared with the model "
